@@ -42,8 +42,9 @@ def execute(prop, ops, rng=None, max_steps=0, collect=True):
     if rng is not None:
         init = prop.init_op(rng)
         ops = [init]
-        st = prop.make(init)
         try:
+            st = None
+            st = prop.make(init)
             for _ in range(max_steps):
                 op = prop.next_op(st, rng)
                 if op is None:
@@ -57,9 +58,10 @@ def execute(prop, ops, rng=None, max_steps=0, collect=True):
         except Diverged as d:
             res["diverged"] = str(d)
     else:
-        st = prop.make(ops[0])
         i = 0
         try:
+            st = None
+            st = prop.make(ops[0])
             for i, op in enumerate(ops[1:], 1):
                 prop.step(st, op)
             i = len(ops)
@@ -70,6 +72,11 @@ def execute(prop, ops, rng=None, max_steps=0, collect=True):
         except Diverged as d:
             res["diverged"] = str(d)
     res["ops"] = ops
+    if st is None:
+        # the violation was raised while the run was being set up (e.g. during a long-session preroll)
+        res["digest"] = "setup"
+        res["stats"] = dict(prop.summary(prop.make_empty()), nontrivial=False) if collect else {}
+        return res
     res["digest"] = prop.digest(st)
     res["stats"] = prop.summary(st) if collect else {}
     return res
